@@ -173,9 +173,15 @@ class Model(object):
             for b in list(c.bases):
                 r = self.resolve_global(c.module, b.split('.')[-1])
                 if not (r and r[0] == 'class') or r[1] is c:
+                    # a base that is computed at run time (a call, a name bound to something that is not a class statement): what the
+                    # class inherits is not known statically - a missing attribute is then a limit of the analysis, not an AttributeError
+                    if '(' in b or (r is not None and r[0] in ('func', 'const')):
+                        c.opaque_bases = True
                     continue
                 base = r[1]
                 link(base)
+                if getattr(base, 'opaque_bases', False):
+                    c.opaque_bases = True
                 for tbl in ('methods', 'getters', 'setters', 'class_attrs'):
                     for k, v in getattr(base, tbl).items():
                         if tbl == 'methods' and (k in c.getters or k in c.setters):
